@@ -488,7 +488,7 @@ def main(chk: Check):
         P(K_(("S", 0), (), ("a",)), "opt", K_(("S", 0), (), ("b",))),
     ]
     progs = list(witnesses)
-    n_rand = budget(420, 1500, 6000)
+    n_rand = budget(330, 1500, 6000)
     for i in range(n_rand):
         progs.append(gen_prog(rng, rng.randrange(1, 9), 0.15 if i % 3 else 0.25))
     for i in range(budget(40, 120, 500)):  # malformed stream: mutations of frozen / optimized dicts
@@ -583,7 +583,7 @@ def main(chk: Check):
         return pm, mk_masked, pe, mk_enabled
 
     makers = {}
-    for i in range(budget(60, 200, 800)):
+    for i in range(budget(45, 200, 800)):
         pm, mkm, pe, mke = wire_progs(*gen_wire(rng))
         for pr, mk in ((pm, mkm), (pe, mke)):
             makers[len(progs)] = mk
@@ -638,19 +638,22 @@ def main(chk: Check):
             def fails(q, pk=pk, pre=pre):
                 r = render_real(q, [pre])
                 return (not isinstance(r, Err)) and r[(0, pk)] != fold(entries(q), pk, pre)
-            # shrink before classifying (the first 400 failures of a run; later ones are classified as they are,
+            # shrink before classifying (the first 60/200/400 failures of a run; later ones are classified as they are,
             # and shrunk after all if no class claims them)
-            small = shrink_prog(prog, fails) if n_shrunk < 400 else prog
-            n_shrunk += 1
-            if small is prog and not any(pred(small, pk) for _cid, pred in CLASSES):
-                small = shrink_prog(prog, fails)
+            if pi in makers:      # driven through the profile/domain glue: shrinking would bypass the glue
+                small = prog
+            else:
+                small = shrink_prog(prog, fails) if n_shrunk < budget(60, 200, 400) else prog
+                n_shrunk += 1
+                if small is prog and not any(pred(small, pk) for _cid, pred in CLASSES):
+                    small = shrink_prog(prog, fails)
             cls = [cid for cid, pred in CLASSES if pred(small, pk)]
-            r = render_real(small, [pre])
+            r = render_real(small, [pre]) if small is not prog else {(0, pk): res[(i, pk)]}
             ex = {"history": show_prog(small), "package": "%s-%d" % (KEYS[pk[0]], pk[1]),
                   "pre_defaults": list(pre),
                   "rendered": sorted(r[(0, pk)]) if not isinstance(r, Err) else repr(r),
                   "left_fold": sorted(fold(entries(small), pk, pre)),
-                  "prog": small, "pkg": list(pk)}
+                  "prog": small, "pkg": list(pk), "via": "profile/domain wiring" if pi in makers else "direct API"}
             if cls and chk.known_finding(cls[0], ex):
                 seen_classes[cls[0]] = seen_classes.get(cls[0], 0) + 1
             else:
@@ -774,7 +777,7 @@ def main(chk: Check):
          ["mismatches run_hist cases", "where_ (fun i r => negb (spec_hist_ok i r)) cases",
           "where_ (fun i _ => existsb (class_a_tight (fst i)) pkgs) cases",
           "where_ (fun i _ => existsb (class_b (fst i)) pkgs) cases",
-          "where_ (fun i _ => existsb (class_c (fst i)) pkgs) cases"], 240),
+          "where_ (fun i _ => existsb (class_c (fst i)) pkgs) cases"], 260),
         ("build", "list chunk * scope", build_cases, ["mismatches run_build cases"], 400),
         ("split", "list tok", split_cases,
          ["mismatches run_split cases", "where_ (fun i r => negb (spec_split_ok i r)) cases"], 400),
